@@ -73,7 +73,8 @@ def _run(steps, backend, limit_s, solver, vs, events, touched, limited):
         elif a == "int_var":
             v = solver.int_var(st["lo"], st["hi"])
             vs.append(v)
-            events.append({"ev": "int_var", "id": v.id, "lo": v.lo, "hi": v.hi})
+            # the declared bounds are the ones the caller passed (not what the variable object holds afterwards)
+            events.append({"ev": "int_var", "id": v.id, "lo": st["lo"], "hi": st["hi"]})
         elif a in ("bool_array", "int_array"):
             # one call declaring shape-many variables; the cells are read back through public indexing, row-major
             shape = st["shape"]
